@@ -1,5 +1,6 @@
 import PdfModel.Core.Proto
 import PdfModel.Model.Xref
+import PdfModel.Model.XrefStream
 
 /-! Line-protocol handler for the C02 streams.
 
@@ -7,6 +8,11 @@ import PdfModel.Model.Xref
                                    subsection `first:e,e,..`, entry `f.next.gen | r.pos.gen | s.sid.idx | P | I`,
                                    `-` for a section without subsections / a subsection without entries
   → `ok <entries> <lookups>` | `err` | `panic`
+
+  c02.xrefstm <allowErr 0|1> <size> <w,w,..> <first:n,first:n,..|-> <hex data>
+                                   one cross-reference stream read by `parseSections` and merged into
+                                   `newTable size`
+  → `ok <entries>` | `err` | `panic`
 -/
 
 namespace DrvC02
@@ -47,13 +53,13 @@ def parseSub (s : String) : Option Sub :=
 def parseSection (s : String) : Option (List Sub) :=
   if s == "-" then some [] else mapM? parseSub (s.splitOn ";")
 
-def parseSections (s : String) : Option (List (List Sub)) :=
+def readSections (s : String) : Option (List (List Sub)) :=
   if s == "-" then some [] else mapM? parseSection (s.splitOn "|")
 
 def handle (args : List String) : String :=
   match args with
   | ["c02.merge", size, secs] =>
-    match natOf size, parseSections secs with
+    match natOf size, readSections secs with
     | some n, some ss =>
       match mergeAll (newTable n) ss with
       | .ok t =>
@@ -61,6 +67,21 @@ def handle (args : List String) : String :=
         s!"ok {joinWith "," (t.map showEntry)} {joinWith "," (ids.map fun i => showLookup (lookup t i))}"
       | o => o.tag
     | _, _ => "bad-request"
+  | ["c02.xrefstm", allow, size, ws, index, hex] =>
+    let pairs : Option (List (Nat × Nat)) :=
+      if index == "-" then some [] else
+      mapM? (fun (p : String) => match p.splitOn ":" with
+        | [a, b] => do some ((← natOf a), (← natOf b))
+        | _ => none) (index.splitOn ",")
+    match boolOf allow, natOf size, mapM? natOf (ws.splitOn ","), pairs, bytesOfHex hex with
+    | some a, some n, some w, some ix, some data =>
+      match parseSections w a ix data [] with
+      | .ok subs =>
+        match mergeAll (newTable n) [subs] with
+        | .ok t => s!"ok {joinWith "," (t.map showEntry)}"
+        | o => o.tag
+      | o => o.tag
+    | _, _, _, _, _ => "bad-request"
   | _ => "bad-request"
 
 end DrvC02
